@@ -1026,6 +1026,66 @@ def rule_allocator_kinds(ctx, px):
         ctx.ob(R, m.rel, f"{g.short} :: capacity arguments only for variable-length arrays", ok, "", g.node.lineno)
 
 
+def rule_py_imports(ctx, px):
+    R = "R-C06-PY-IMPORTS"
+    ctx.rule(
+        R,
+        "Python: the import list of a generated module covers every composite the class body names by full reference - the data type of "
+        "each composite attribute and the element type of each array of composites, over the attributes of the type itself or, for a "
+        "service, of its request and of its response; every namespace found is imported (no filter but de-duplication)",
+    )
+    m = px.module("nunavut.lang.py")
+    f = m.funcs.get("filter_imports")
+    if f is None:
+        raise AnalysisError("anchor missing: nunavut.lang.py.filter_imports")
+    tparam = f.node.args.args[1].arg
+    src = ast.unparse(f.node)
+    # (a) the attribute list
+    svc = None
+    for st, gd in pyfront.walk_guarded(f.node.body):
+        if isinstance(st, ast.Assign) and any(e == f"isinstance({tparam}, pydsdl.ServiceType)" and p for e, p in pyfront.guard_terms(gd)):
+            svc = ast.unparse(st.value).replace(" ", "")
+    ok = svc is not None and f"{tparam}.request_type.attributes" in svc and f"{tparam}.response_type.attributes" in svc and "+" in svc
+    ctx.ob(R, m.rel, f"{f.short} :: a service contributes the attributes of its request and of its response", ok, f"{svc}", f.node.lineno)
+    # (b) (c) the two extractions
+    direct = elems = False
+    helpers = {n.name: n for n in ast.walk(f.node) if isinstance(n, ast.FunctionDef) and n is not f.node}
+    for n in ast.walk(f.node):
+        if isinstance(n, (ast.ListComp, ast.GeneratorExp, ast.SetComp)) and len(n.generators) == 1 and isinstance(n.generators[0].target, ast.Name):
+            v = n.generators[0].target.id
+            elt = ast.unparse(n.elt)
+            conds = " and ".join(ast.unparse(c) for c in n.generators[0].ifs)
+            for hn, h in helpers.items():     # a local predicate spelled out
+                if f"{hn}({v}.data_type)" in conds and h.args.args:
+                    hp = h.args.args[0].arg
+                    body = " ".join(ast.unparse(r.value) for r in ast.walk(h) if isinstance(r, ast.Return) and r.value is not None)
+                    conds = conds.replace(f"{hn}({v}.data_type)", "(" + body.replace(hp, f"{v}.data_type") + ")")
+            if elt == f"{v}.data_type" and f"isinstance({v}.data_type, pydsdl.CompositeType)" in conds:
+                direct = True
+            if elt == f"{v}.data_type.element_type" and f"isinstance({v}.data_type, pydsdl.ArrayType)" in conds and \
+                    f"isinstance({v}.data_type.element_type, pydsdl.CompositeType)" in conds:
+                elems = True
+    ctx.ob(R, m.rel, f"{f.short} :: the data type of every composite attribute is a dependency", direct, "", f.node.lineno)
+    ctx.ob(R, m.rel, f"{f.short} :: the element type of every array of composites is a dependency", elems,
+           "" if elems else "a module that has a field `Foo.1.0[<=N] x` of another namespace refers to `ns.Foo_1_0` without importing `ns`", f.node.lineno)
+    # (d) nothing is dropped on the way to the result
+    loops = [n for n in ast.walk(f.node) if isinstance(n, ast.For)]
+    skips = [x for lp in loops for x in ast.walk(lp) if isinstance(x, (ast.Continue, ast.Break))]
+    appends = []
+    for lp in loops:
+        if not isinstance(lp.target, ast.Name):
+            continue
+        lv = lp.target.id
+        for c in ast.walk(lp):
+            if isinstance(c, ast.Call) and isinstance(c.func, ast.Attribute) and c.func.attr in ("append", "add") and len(c.args) == 1:
+                a = ast.unparse(pyfront.subst_locals(f.node, c.args[0]))
+                if a == f"{lv}.full_namespace":
+                    appends.append(pyfront.guard_terms(pyfront.guards_of(f.node, c) or ()))
+    only_dedup = all(all((" not in " in e and p) or (" in " in e and not p) for e, p in t) for t in appends)
+    ctx.ob(R, m.rel, f"{f.short} :: every namespace found is listed (de-duplication is the only filter)", bool(appends) and only_dedup and not skips,
+           "" if bool(appends) and only_dedup and not skips else f"append guards {appends}, skips {len(skips)}", f.node.lineno)
+
+
 def run(ctx):
     ctx.explanation = (
         "C06 is decided as exhaustiveness over template paths: every name a built-in template can reference on any "
@@ -1062,3 +1122,4 @@ def run(ctx):
     rule_pairing(ctx, ts)
     rule_partial_filters(ctx, ts, px)
     rule_allocator_kinds(ctx, px)
+    rule_py_imports(ctx, px)
